@@ -259,11 +259,20 @@ def render(tables):
            "import Rtcm.Model.Basic\nset_option maxRecDepth 100000\nnamespace Rtcm.Gen\nopen Rtcm\n\n")
     out = {}
     # Fields
-    s = hdr + "def fields : Array FieldSpec := #[\n"
+    s = hdr + "def fields : List FieldSpec := [\n"
     s += ",\n".join(
         f"  ⟨{lean_label(f['name'])}, .{f['ty']}, {f['width']}, {lean_res(f['res'])}⟩ /- {i} {f['name']} -/"
         for i, f in enumerate(tables["fields"]))
-    s += "\n]\n\nend Rtcm.Gen\n"
+    s += "\n]\n\n"
+
+    def tree(lo, hi):
+        if lo >= hi:
+            return ".leaf"
+        m = (lo + hi) // 2
+        f = tables["fields"][m]
+        return (f"(.node {tree(lo, m)} {m} ⟨{lean_label(f['name'])}, .{f['ty']}, {f['width']}, {lean_res(f['res'])}⟩ "
+                f"{tree(m + 1, hi)})")
+    s += "def ftree : FTree :=\n  " + tree(0, len(tables["fields"])) + "\n\nend Rtcm.Gen\n"
     out["Fields.lean"] = s
     # Defs (one file per table)
     for tname in ("std", "msm", "igs"):
@@ -293,6 +302,7 @@ def render(tables):
     s += "def special : Specials := {\n" + ",\n".join(f"  {k} := {opt_nat(v)}" for k, v in spv.items()) + "\n}\n\n"
     s += "def tables : Tables := {\n"
     s += "  fields := fields,\n"
+    s += f"  nf := {len(tables['fields'])},\n  ftree := ftree,\n"
     s += "  derived := [" + ", ".join(lean_label(d) for d in tables["derived"]) + "],\n"
     s += "  special := special,\n  std := std,\n  msm := msm,\n  igs := igs,\n"
     s += f"  badKeys := {len(tables['badKeys'])},\n  badFields := {tables['badFields']},\n"
